@@ -81,8 +81,26 @@ def r08a(chk, rid='R08.a'):
     chk.extra['ladder_combinations'] = n
     chk.extra['exhaustive'] = True
     # parseUrl drops the utf-8 default so that a later @charset can still win
-    pu = ast.unparse(chk.repo.fn(PARSE, 'CSSParser.parseUrl'))
-    chk.ob(rid, PARSE, 'CSSParser.parseUrl', 'the utf-8 default (type 5) is not passed on as an override', 'if enctype == 5:' in pu and 'encoding = None' in pu, '', shape=True)
+    from sa.absint import Evaluator as _Ev, Obj as _Obj, Raised as _Raised
+
+    pm = chk.repo.mod(PARSE)
+    pu = chk.repo.fn(PARSE, 'CSSParser.parseUrl')
+    for enctype, label in ((0, 'explicit override'), (1, 'transport (HTTP) charset'), (2, 'BOM'), (3, '@charset'), (4, 'encoding of the referring sheet'), (5, 'utf-8 default')):
+        calls = []
+        me = _Obj(**{'__fetcher': 'F', 'parseString': lambda text_, **k: (calls.append((text_, k)), 'sheet')[1]})
+        seen = []
+        intr = {'cssutils.util._readUrl': lambda href, **k: (seen.append((href, k)), ('enc', enctype, 'the text'))[1]}
+        got = _Ev(pu, intrinsics=intr, module=pm, cls='CSSParser').run(self=me, href='u.css', encoding='ov' if enctype == 0 else None)
+        want_enc = None if enctype == 5 else 'enc'
+        ok = not isinstance(got, _Raised) and len(calls) == 1 and calls[0][0] == 'the text' and calls[0][1].get('encoding') == want_enc and calls[0][1].get('href') == 'u.css' \
+            and seen == [('u.css', {'fetcher': 'F', 'overrideEncoding': 'ov' if enctype == 0 else None})]
+        chk.ob(rid, PARSE, 'CSSParser.parseUrl', f'encoding found through {label} (type {enctype}) is ' + ('not handed on (a later @charset may still win)' if enctype == 5 else 'handed on to parseString') + ' (by evaluation)', ok,
+               f'_readUrl called with {seen}, parseString with {calls}, result {got!r}: the sheet and its imports do not get the encoding the ladder found')
+    for ret in ((None, None, None),):
+        calls = []
+        me = _Obj(**{'__fetcher': 'F', 'parseString': lambda text_, **k: calls.append(k)})
+        got = _Ev(pu, intrinsics={'cssutils.util._readUrl': lambda href, **k: ret}, module=pm, cls='CSSParser').run(self=me, href='u.css')
+        chk.ob(rid, PARSE, 'CSSParser.parseUrl', 'nothing is parsed when nothing could be read', not calls and got is None, f'{got!r}', trivial=True)
     ps = ast.unparse(chk.repo.fn(PARSE, 'CSSParser.parseString'))
     chk.ob(rid, PARSE, 'CSSParser.parseString', "byte input is decoded by the css codec with the caller's encoding, which is also handed on as override", "codecs.getdecoder('css')(cssText, encoding=encoding)[0]" in ps and 'encodingOverride=encoding' in ps, '', shape=True)
 
